@@ -1,0 +1,23 @@
+//go:build verif
+
+// Contracts for the genesis package, read by /verif/bin/gocv. Comment-only.
+package genesis
+
+// C18: an invalid genesis is refused, a valid one is accepted
+//@ pred GenesisOK(g) := g.ChainID != "" && g.InitialHeight >= 1 && g.GenesisDAStartTime != 0 && g.ProposerAddress != nil
+
+//@ func (g Genesis) Validate() (err)
+//@   property C18
+//@   nopanic
+//@   ensures [refuses-invalid] err == nil ==> GenesisOK(g)
+//@   ensures [accepts-valid] GenesisOK(g) ==> err == nil
+
+//@ func NewGenesis(chainID, initialHeight, genesisDAStartHeight, proposerAddress) (g)
+//@   property C18
+//@   ensures [fields] g.ChainID == chainID && g.InitialHeight == initialHeight && g.GenesisDAStartTime == genesisDAStartHeight && g.ProposerAddress == proposerAddress
+
+// whatever the file holds, LoadGenesis returns a genesis only if it is valid
+//@ func LoadGenesis(genesisPath) (g, err)
+//@   property C18
+//@   observe v := call Validate
+//@   ensures [validated] err == nil ==> v.count == 1 && v.res0 == nil && GenesisOK(g)
